@@ -47,7 +47,7 @@ Definition hmac_absorb_key (v : xof_variant) (h : xof_state) (key : bytes) (pad 
       let '(_, temp) := xof_squeeze perm v h1 32 in
       let h3 := hash_init perm v in
       (xof_absorb perm v h3 (xor_pad pad temp), 32) in
-  fold_left (fun h pc => xof_absorb perm v h pc) (chunks 32 (repeat pad (64 - posn))) h1.
+  fold_left (xof_absorb perm v) (chunks 32 (repeat pad (64 - posn))) h1.
 
 Definition hmac_init (v : xof_variant) (key : bytes) : xof_state :=
   hmac_absorb_key v (hash_init perm v) key 0x36.
